@@ -247,8 +247,10 @@ impl WTClient {
 
             // DISCUSS: It may be nice to independently compute the slots and compare
             tower.available_slots = available_slots;
-            // An accepted appointment is not pending any more (the database drops the reference along with storing the receipt)
+            // An accepted appointment is not pending (nor invalid) any more (the database drops the references along with
+            // storing the receipt)
             tower.pending_appointments.remove(&locator);
+            tower.invalid_appointments.remove(&locator);
 
             self.dbm
                 .store_appointment_receipt(tower_id, locator, available_slots, receipt)
@@ -299,6 +301,19 @@ impl WTClient {
     /// Adds an invalid appointment to the tower record.
     pub fn add_invalid_appointment(&mut self, tower_id: TowerId, appointment: &Appointment) {
         if let Some(tower) = self.towers.get_mut(&tower_id) {
+            // An appointment the tower has already accepted (we hold the receipt) stays accepted, whatever the tower says later
+            if self
+                .dbm
+                .load_appointment_receipt(tower_id, appointment.locator)
+                .is_some()
+            {
+                log::debug!(
+                    "Appointment already accepted by the tower ({tower_id}, {})",
+                    appointment.locator
+                );
+                return;
+            }
+
             // Nothing to do if it was already there
             if !tower.invalid_appointments.insert(appointment.locator) {
                 return;
